@@ -70,11 +70,12 @@ theorem ldx_wbuild_two (cfg : Cfg) (d : Cli.Drv) (a b : Name) (ia ib : TagInfo) 
 
 theorem ldx_sendRequest_mwrite (w w2 : Cli.World Ext) (rs : Results) (seq : Nat) (reqs : List WriteReq) (raw : Option Bytes)
     (h : sendUnit hookAll w seq (Cl.multiMsg (reqs.map fun q => Cl.writeMsg q.path q.typeBytes q.elements q.value)) =
-      (w2, .ok raw)) :
+      (w2, .ok raw))
+    (hcs : (tagResp raw).p.commandStatus = some 0) :
     sendRequest hookAll w rs (.multiWrite seq reqs) =
       (w2, multiWriteResults rs (reqs.zip (embeddedReplies (tagResp raw).p.data))) := by
   unfold sendRequest
-  simp only [h]
+  simp only [h, multiPacketError, hcs, if_true]
 
 theorem ldx_writeMsg_eq (path ty : Bytes) (n : Nat) (value : Bytes) :
     Cl.writeMsg path ty n value = [0x4D] ++ path ++ (ty ++ le 2 n ++ value) := by
@@ -143,7 +144,7 @@ theorem ldx_sendRequest_mwrite_two (w : Cli.World Ext) (sess : Nat) (cidb : Byte
   have hmap : ([qa, qb] : List WriteReq).map (fun q => Cl.writeMsg q.path q.typeBytes q.elements q.value) = [ma, mb] := by
     rw [← hma, ← hmb]; rfl
   rw [← hmap] at hsend
-  rw [ldx_sendRequest_mwrite w w2 rs seq _ _ hsend, hdata, hemb]
+  rw [ldx_sendRequest_mwrite w w2 rs seq _ _ hsend (ldr_tagResp_commandStatus _ _ _ _), hdata, hemb]
   rfl
 
 /-- `write((a, va), (b, vb))` of two one-element requests with plain parses on a healthy connected driver that is not
